@@ -739,14 +739,23 @@ def r10(model: Model, rep: Report):
               required=f"self.{store_field}[key] = value on every path", what="a configured duration is not stored under its key in the table the getter reads", detail="registry-store")
     # temporary override ---------------------------------------------------------------------
     ov = model.function("registry_duration", "temporary_override_get_registry_at")
-    inner = [n_ for n_ in ast.walk(ov.node) if isinstance(n_, ast.FunctionDef) and n_ is not ov.node]
     param = ov.param_names[0]
-    installs = [n_ for n_ in ast.walk(ov.node) if isinstance(n_, ast.Assign) and isinstance(n_.targets[0], ast.Attribute)
-                and ast.unparse(n_.targets[0]) == "GlobalDurationRegistry.get_registry_at" and isinstance(n_.value, ast.Name) and inner and n_.value.id == inner[0].name]
-    ok = len(inner) == 1 and len(installs) == 1
-    found = None
-    if ok:
-        fn = inner[0]
+    ok, found = False, None
+    try:
+        ops = PathEnumerator(Evaluator(model, inline_methods=False)).function_paths(ov)
+    except Unsupported as e:
+        raise AnalysisError(f"temporary_override_get_registry_at: {e}")
+    installed = set()
+    for p in ops:
+        kinds = [e.kind for e in p.events]
+        if "yield" not in kinds:
+            continue
+        iy = kinds.index("yield")
+        sts = [e for e in p.events[:iy] if e.kind == "store" and e.term[1] == ("cls", "GlobalDurationRegistry") and e.term[2] == "get_registry_at"]
+        installed.update(e.term[3] for e in sts[-1:])
+    defs = {n_.name: n_ for n_ in ast.walk(ov.node) if isinstance(n_, ast.FunctionDef) and n_ is not ov.node}
+    if len(installed) == 1 and list(installed)[0][0] == "localdef" and list(installed)[0][1] in defs:
+        fn = defs[list(installed)[0][1]]
         args = [a.arg for a in fn.args.args]
         rets = [n_ for n_ in ast.walk(fn) if isinstance(n_, ast.Return)]
         stmts = [n_ for n_ in fn.body if not (isinstance(n_, ast.Expr) and isinstance(n_.value, ast.Constant))]
@@ -757,7 +766,7 @@ def r10(model: Model, rep: Report):
             ok = (isinstance(r, ast.Call) and isinstance(r.func, ast.Attribute) and r.func.attr == "get" and isinstance(r.func.value, ast.Name) and r.func.value.id == param
                   and r.args and isinstance(r.args[0], ast.Name) and r.args[0].id == args[1]) or \
                  (isinstance(r, ast.Subscript) and isinstance(r.value, ast.Name) and r.value.id == param and isinstance(r.slice, ast.Name) and r.slice.id == args[1])
-    rep.check(ok, "C01.R10", "temporary_override_get_registry_at[lookup]", ov.loc, found=found or f"{len(inner)} inner functions, {len(installs)} installs",
+    rep.check(ok, "C01.R10", "temporary_override_get_registry_at[lookup]", ov.loc, found=found or f"installed before the managed block: {[show(x) for x in installed]}",
               required=f"GlobalDurationRegistry.get_registry_at := (self, key) -> {param}.get(key, ...)", what="inside the override the duration of a key is not the overriding table's entry for that key",
               detail="override-lookup")
 
